@@ -110,6 +110,45 @@ def make_sig(n_ts, n_ks, clefs):
     return h
 
 
+def make_sig_history():
+    """query, edit the part, query again: the maps must reflect the part as it is now (no stale state)."""
+
+    def h(t1: int, t2: int, t: int, f1: int, f2: int):
+        import partitura.score as S
+
+        require(0 < t1 < t2 <= 1000)
+        require(0 <= t <= 1000)
+        require(-7 <= f1 <= 7)
+        require(-7 <= f2 <= 7)
+        part = S.Part("P", quarter_duration=4)
+        part.add(S.Note("C", 4, id="n0", voice=1, staff=1), 0, 1000)
+        ts0, ts1, ts2 = S.TimeSignature(4, 4), S.TimeSignature(3, 4), S.TimeSignature(6, 8)
+        ks1, ks2 = S.KeySignature(f1, "major"), S.KeySignature(f2, "minor")
+        part.add(ts0, 0)
+        part.add(ts1, t1)
+        part.add(ts2, t2)
+        part.add(ks1, 0)
+        part.add(ks2, t2)
+        elems = [(0, (4, 4, 4)), (t1, (3, 4, 3)), (t2, (6, 8, 2))]
+        got = [int(x) for x in _tolist(must_not_raise(part.time_signature_map, t, _what="time_signature_map"))]
+        check(got == list(latest(elems, t)), "time_signature_map (before editing)", t, got)
+        part.remove(ts1)  # the 3/4 signature is taken out again
+        elems = [(0, (4, 4, 4)), (t2, (6, 8, 2))]
+        got = [int(x) for x in _tolist(must_not_raise(part.time_signature_map, t, _what="time_signature_map"))]
+        check(got == list(latest(elems, t)), "time_signature_map still reports a removed time signature", t, got)
+        k0 = [int(x) for x in _tolist(part.key_signature_map(t))]
+        part.remove(ks2)
+        k1 = [int(x) for x in _tolist(must_not_raise(part.key_signature_map, t, _what="key_signature_map"))]
+        check(k1 == [f1, 1], "key_signature_map still reports a removed key signature", t, k1)
+        part.add(S.TimeSignature(2, 2), t1)
+        elems = [(0, (4, 4, 4)), (t1, (2, 2, 2)), (t2, (6, 8, 2))]
+        got = [int(x) for x in _tolist(part.time_signature_map(t))]
+        check(got == list(latest(elems, t)), "time_signature_map after adding a signature", t, got)
+        return [got, k0, k1]
+
+    return h
+
+
 def make_measures(n_meas, beats, beat_type, q):
     """n_meas contiguous measures with symbolic barlines; first one may be a pickup."""
     names = ["b%d" % i for i in range(1, n_meas + 1)] + ["t", "num0"]
@@ -198,6 +237,10 @@ HARNESSES = [
              "1-2 staves incl. a staff without clef; all start times and the query symbolic in [first, last point]; "
              "elements of one kind never at the same time",
       outside="more elements; two signatures of a kind at one time"),
+    H("sig_history", make_sig_history, lambda tier: [{}], models=MODELS, budget={"quick": 150, "thorough": 600},
+      functions=["Part.time_signature_map", "Part.key_signature_map", "Part.add", "Part.remove"],
+      bounds="three time signatures and two key signatures, two symbolic positions and a symbolic query; query - remove - "
+             "query - add - query history"),
     H("measures", make_measures, _meas_inst, models=MODELS, budget={"quick": 150, "thorough": 900},
       functions=["Part.measure_map", "Part.measure_number_map", "Part.metrical_position_map", "Part.beat_map",
                  "Part.inv_beat_map", "Part.time_signature_map", "generic.interp1d", "scipy PPoly (model)"],
